@@ -981,6 +981,10 @@ func (o *OtherRepository) GetInitialRootPrincipals() []tuf.Principal {
 func (r *RootMetadata) AddHook(stages []tuf.HookStage, hookName string, principalIDs []string, hashes map[string]string, environment tuf.HookEnvironment, timeout int) (tuf.Hook, error) {
 	// TODO: Check if principal exists in RootMetadata/TargetsMetadata
 
+	if environment.String() == "" {
+		return nil, tuf.ErrInvalidHookEnvironment
+	}
+
 	newHook := &Hook{
 		Name:         hookName,
 		PrincipalIDs: set.NewSetFromItems(principalIDs...),
@@ -991,6 +995,20 @@ func (r *RootMetadata) AddHook(stages []tuf.HookStage, hookName string, principa
 
 	if r.Hooks == nil {
 		r.Hooks = map[tuf.HookStage][]*Hook{}
+	}
+
+	// Check every stage before adding the hook to any of them, so that a
+	// refused hook is not left behind in some of the stages
+	for _, stage := range stages {
+		if err := stage.IsValid(); err != nil {
+			return nil, err
+		}
+
+		for _, existingHook := range r.Hooks[stage] {
+			if existingHook.Name == hookName {
+				return nil, tuf.ErrDuplicatedHookName
+			}
+		}
 	}
 
 	for _, stage := range stages {
@@ -1021,6 +1039,10 @@ func (r *RootMetadata) UpdateHook(stages []tuf.HookStage, hookName string, princ
 		return tuf.ErrNoHooksDefined
 	}
 
+	if environment.String() == "" {
+		return tuf.ErrInvalidHookEnvironment
+	}
+
 	var hookFound bool
 
 	for _, stage := range stages {
@@ -1046,6 +1068,12 @@ func (r *RootMetadata) UpdateHook(stages []tuf.HookStage, hookName string, princ
 func (r *RootMetadata) RemoveHook(stages []tuf.HookStage, hookName string) error {
 	if r.Hooks == nil {
 		return tuf.ErrNoHooksDefined
+	}
+
+	for _, stage := range stages {
+		if err := stage.IsValid(); err != nil {
+			return err
+		}
 	}
 
 	for _, stage := range stages {
